@@ -127,7 +127,7 @@ def install_primitives(R):
     R.contract(M, 'DNSOutgoing._get_short', P, params={'value': 'int'}, returns='bytes',
                raises={'struct.error': 'value >= 65536', 'IndexError': 'value < -128'},
                raises_exact=['struct.error', 'IndexError'],
-               ensures=['blen(result) == 2'])
+               ensures=['blen(result) == 2', 'implies(0 <= value, result == pack2v(value))'])
     R.contract(M, 'DNSOutgoing.write_short', P, params={'value': 'int'}, requires=['wf_out(self)'],
                raises={'struct.error': 'value >= 65536', 'IndexError': 'value < -128'},
                raises_exact=['struct.error', 'IndexError'],
@@ -154,7 +154,9 @@ def install_primitives(R):
                raises_exact=['struct.error', 'IndexError'],
                modifies=['self.data'],
                ensures=['len(self.data) == old(len(self.data)) + 1',
-                        'forall("k:int", lambda k: implies(k >= 1, bsum(self.data, k) == 2 + old(bsum(self.data, k - 1))))'])
+                        'forall("k:int", lambda k: implies(k >= 1, bsum(self.data, k) == 2 + old(bsum(self.data, k - 1))))',
+                        'implies(0 <= value and value < 65536, self.data[0] == pack2v(value))',
+                        'forall("i:int", lambda i: implies(1 <= i and i < len(self.data), self.data[i] == old(self.data[i - 1])))'])
 
 
 # ---- uninterpreted string operations (only chunk lengths matter for C14) -----------------------------------
@@ -245,6 +247,7 @@ SECTION_POST = [
     'implies(result == 0, self.size == old(self.size) and len(self.data) == old(len(self.data)))',
     'implies(result > 0, not self.allow_long)',
     'implies(not old(self.allow_long), not self.allow_long)',
+    'implies(result > 0, len(self.data) > old(len(self.data)))',
 ]
 
 
@@ -289,7 +292,8 @@ def install_entries(R):
     INV = ['wf_out(self)', 'data_prefix_kept(self)', 'self.size >= old(self.size)',
            'self.size <= 1460 or (old(self.allow_long) and %s == 1 and self.size <= 8966) or (%s == 0 and self.size == old(self.size))',
            'implies(%s == 0, self.size == old(self.size) and len(self.data) == old(len(self.data)) and self.allow_long == old(self.allow_long))',
-           'implies(%s > 0, not self.allow_long)', 'implies(not old(self.allow_long), not self.allow_long)', '%s == _k']
+           'implies(%s > 0, not self.allow_long)', 'implies(not old(self.allow_long), not self.allow_long)', '%s == _k',
+           'implies(%s > 0, len(self.data) > old(len(self.data)))']
     R.contract(M, 'DNSOutgoing._write_questions_from_offset', P, params={'questions_offset': 'int'},
                requires=['wf_out(self)', 'forall("j:int", lambda j: implies(0 <= j and j < len(self.questions), self.questions[j] is not None))'],
                loops={0: Loop(inv=[i.replace('%s', 'questions_written') for i in INV])}, **sect)
@@ -299,3 +303,100 @@ def install_entries(R):
     R.contract(M, 'DNSOutgoing._write_records_from_offset', P, params={'records': 'list[DNSRecord]', 'offset': 'int'},
                requires=['wf_out(self)', 'forall("j:int", lambda j: implies(0 <= j and j < len(records), records[j] is not None))'],
                loops={0: Loop(inv=[i.replace('%s', 'records_written') for i in INV])}, **sect)
+
+
+# ---- packets() ------------------------------------------------------------------------------------------------
+# ghost G: one tuple per datagram produced by this call:
+#   (q_off, q_n, a_off, a_n, ns_off, ns_n, ar_off, ar_n, size, flags_written, more_to_add, id_written)
+GT = 'tuple[int,int,int,int,int,int,int,int,int,int,int,int]'
+TOT = 'G[p][1] + G[p][3] + G[p][5] + G[p][7]'
+
+
+def install_packets(R):
+    g0 = 'old(len(G))'
+    pd0 = 'old(len(self.packets_data))'
+    R.contract(M, 'DNSOutgoing._has_more_to_add', P,
+               params={'questions_offset': 'int', 'answer_offset': 'int', 'authority_offset': 'int', 'additional_offset': 'int'},
+               returns='bool',
+               ensures=['result == (questions_offset < len(self.questions) or answer_offset < len(self.answers) '
+                        'or authority_offset < len(self.authorities) or additional_offset < len(self.additionals))'])
+    R.contract(M, 'DNSOutgoing._reset_for_next_packet', P, modifies=['self.names', 'self.data', 'self.size', 'self.allow_long'],
+               ensures=['len(self.data) == 0', 'self.size == 12', 'self.allow_long', 'wf_out(self)',
+                        'forall("n:str", lambda n: not self.names.has(n))'])
+    R.contract(M, 'DNSOutgoing.is_query', P, returns='bool', ensures=['result == (mod(div(self.flags, 32768), 2) == 0)'])
+    inv = [
+        'packets_data is self.packets_data' if False else 'len(self.packets_data) == %s + len(G) - %s' % (pd0, g0),
+        'len(G) >= %s' % g0,
+        'forall("p:int", lambda p: implies(0 <= p and p < %s, G[p] == old(G[p])))' % g0,
+        'forall("p:int", lambda p: implies(0 <= p and p < %s, self.packets_data[p] == old(self.packets_data[p])))' % pd0,
+        # offsets: start at zero, each datagram continues where the previous one stopped
+        'implies(len(G) == %s, questions_offset == 0 and answer_offset == 0 and authority_offset == 0 and additional_offset == 0)' % g0,
+        'implies(len(G) > %s, G[%s][0] == 0 and G[%s][2] == 0 and G[%s][4] == 0 and G[%s][6] == 0)' % (g0, g0, g0, g0, g0),
+        'forall("p:int", lambda p: implies(%s <= p and p + 1 < len(G), G[p + 1][0] == G[p][0] + G[p][1] and G[p + 1][2] == G[p][2] + G[p][3] '
+        '   and G[p + 1][4] == G[p][4] + G[p][5] and G[p + 1][6] == G[p][6] + G[p][7]))' % g0,
+        'implies(len(G) > %s, questions_offset == G[len(G) - 1][0] + G[len(G) - 1][1] and answer_offset == G[len(G) - 1][2] + G[len(G) - 1][3] '
+        '   and authority_offset == G[len(G) - 1][4] + G[len(G) - 1][5] and additional_offset == G[len(G) - 1][6] + G[len(G) - 1][7])' % g0,
+        '0 <= questions_offset and 0 <= answer_offset and 0 <= authority_offset and 0 <= additional_offset',
+        # every datagram so far: its length, the size law, counts are non-negative, header words
+        'forall("p:int", lambda p: implies(%s <= p and p < len(G), blen(self.packets_data[%s + p - %s]) == G[p][8] '
+        '   and (G[p][8] <= 1460 or (%s == 1 and G[p][8] <= 8966)) and G[p][8] >= 12 '
+        '   and G[p][1] >= 0 and G[p][3] >= 0 and G[p][5] >= 0 and G[p][7] >= 0))' % (g0, pd0, g0, TOT),
+        # TC: set exactly on query datagrams that are followed by more, never on responses; all but the last are followed by more
+        'forall("p:int", lambda p: implies(%s <= p and p < len(G), '
+        '   G[p][9] == ite(G[p][10] == 1 and mod(div(self.flags, 32768), 2) == 0, self.flags + 512 * (1 - mod(div(self.flags, 512), 2)), self.flags) '
+        '   and G[p][11] == ite(self.multicast, 0, self.id)))' % g0,
+        'forall("p:int", lambda p: implies(%s <= p and p + 1 < len(G), G[p][10] == 1))' % g0,
+        'implies(len(G) > %s and has_more_to_add, G[len(G) - 1][10] == 1)' % g0,
+        'implies(len(G) > %s and not has_more_to_add, G[len(G) - 1][10] == 0)' % g0,
+        # the builder is clean at the head of every iteration
+        'implies(has_more_to_add, len(self.data) == 0 and self.size == 12 and self.allow_long and wf_out(self))',
+        'implies(not has_more_to_add, questions_offset >= len(self.questions) and answer_offset >= len(self.answers) '
+        '   and authority_offset >= len(self.authorities) and additional_offset >= len(self.additionals))',
+        'packets_data_is_field',
+    ]
+    inv = [i for i in inv if i != 'packets_data_is_field']
+    R.contract(M, 'DNSOutgoing.packets', P, returns='list[bytes]', result_alias=None,
+               ghost={'G': 'list[%s]' % GT},
+               requires=['forall("j:int", lambda j: implies(0 <= j and j < len(self.questions), self.questions[j] is not None))',
+                         'forall("j:int", lambda j: implies(0 <= j and j < len(self.answers), self.answers[j][0] is not None))',
+                         'forall("j:int", lambda j: implies(0 <= j and j < len(self.authorities), self.authorities[j] is not None))',
+                         'forall("j:int", lambda j: implies(0 <= j and j < len(self.additionals), self.additionals[j] is not None))',
+                         'len(self.questions) < 65536 and len(self.answers) < 65536 and len(self.authorities) < 65536 and len(self.additionals) < 65536',
+                         '0 <= self.flags and self.flags < 65536 and 0 <= self.id and self.id < 65536',
+                         # a builder that has not been finished is clean (constructor state)
+                         'implies(self.state != 1, len(self.data) == 0 and self.size == 12 and self.allow_long and len(self.packets_data) == 0)'],
+               raises=ENTRY_RAISES,
+               modifies=['self.data', 'self.size', 'self.names', 'self.allow_long', 'self.state', 'self.packets_data', 'G'],
+               at_calls={'packets_data.append': [
+                   'len(self.data) >= 6',
+                   'self.data[0] == pack2v(ite(self.multicast, 0, self.id))',
+                   'self.data[2] == pack2v(questions_written) and self.data[3] == pack2v(answers_written) '
+                   'and self.data[4] == pack2v(authorities_written) and self.data[5] == pack2v(additionals_written)',
+                   'ghost: G.append((questions_offset - questions_written, questions_written, answer_offset - answers_written, answers_written, '
+                   'authority_offset - authorities_written, authorities_written, additional_offset - additionals_written, additionals_written, '
+                   'self.size, (self.flags | 512) if (has_more_to_add and self.is_query()) else self.flags, 1 if has_more_to_add else 0, '
+                   '0 if self.multicast else self.id))']},
+               loops={0: Loop(inv=inv, modifies=['self.data', 'self.size', 'self.names', 'self.allow_long', 'self.packets_data', 'G'])},
+               ensures=[
+                   'implies(old(self.state) == 1, len(G) == %s)' % g0,
+                   'self.state == 1',
+                   # the size law for every datagram produced
+                   'forall("p:int", lambda p: implies(%s <= p and p < len(G), blen(self.packets_data[%s + p - %s]) == G[p][8] '
+                   '   and (G[p][8] <= 1460 or (%s == 1 and G[p][8] <= 8966))))' % (g0, pd0, g0, TOT),
+                   'len(self.packets_data) == %s + len(G) - %s' % (pd0, g0),
+                   # consecutive ranges starting at zero ...
+                   'implies(len(G) > %s, G[%s][0] == 0 and G[%s][2] == 0 and G[%s][4] == 0 and G[%s][6] == 0)' % (g0, g0, g0, g0, g0),
+                   'forall("p:int", lambda p: implies(%s <= p and p + 1 < len(G), G[p + 1][0] == G[p][0] + G[p][1] and G[p + 1][2] == G[p][2] + G[p][3] '
+                   '   and G[p + 1][4] == G[p][4] + G[p][5] and G[p + 1][6] == G[p][6] + G[p][7]))' % g0,
+                   # ... ending at the section lengths unless a single entry could not be written at all
+                   'implies(len(G) > %s and G[len(G) - 1][10] == 0, G[len(G) - 1][0] + G[len(G) - 1][1] >= len(self.questions) '
+                   '   and G[len(G) - 1][2] + G[len(G) - 1][3] >= len(self.answers) and G[len(G) - 1][4] + G[len(G) - 1][5] >= len(self.authorities) '
+                   '   and G[len(G) - 1][6] + G[len(G) - 1][7] >= len(self.additionals))' % g0,
+                   'implies(len(G) > %s and G[len(G) - 1][10] == 1, %s == 0)' % (g0, TOT.replace('[p]', '[len(G) - 1]')),
+                   # TC flag and message id
+                   'forall("p:int", lambda p: implies(%s <= p and p < len(G), '
+                   '   G[p][9] == ite(G[p][10] == 1 and mod(div(self.flags, 32768), 2) == 0, self.flags + 512 * (1 - mod(div(self.flags, 512), 2)), self.flags) '
+                   '   and G[p][11] == ite(self.multicast, 0, self.id)))' % g0,
+                   'forall("p:int", lambda p: implies(%s <= p and p + 1 < len(G), G[p][10] == 1))' % g0,
+               ])
+    R.spec('pack2v', [('v', 'int')], 'bytes', lambda ex, st, v: Sc(pack2(ex.num(v, st)[0]), BYTES))
